@@ -54,9 +54,11 @@ def debounce_(
             cancelable.disposable = d
 
             def action(scheduler: abc.SchedulerBase, state: Any = None) -> None:
-                if has_value[0] and _id[0] == current_id:
-                    observer.on_next(value[0])
+                emit = has_value[0] and _id[0] == current_id
+                pending = value[0]
                 has_value[0] = False
+                if emit:
+                    observer.on_next(pending)
 
             d.disposable = _scheduler.schedule_relative(duetime, action)
 
